@@ -2,6 +2,6 @@ SPECIFICATION Spec
 CONSTANTS
   Variant = "fixed"
   MaxOps = 14
-  MaxSize = 2
+  MaxSize = 3
 INVARIANT Emit
 CHECK_DEADLOCK FALSE
